@@ -55,3 +55,16 @@ Section WManifest.
         else None
     end.
 End WManifest.
+
+(** The names a fresh parse of a requirements.txt holds: RequirementsTxtParser = str.splitlines, _clean_lines, then
+    packaging's Requirement on every cleaned line (invalid lines are dropped).  [req_cname] is the packaging oracle composed
+    with canonicalize_name: cleaned line -> canonical name, or None when the line is not a requirement. *)
+Section NamesReq.
+  Variable req_cname : str -> option str.
+  Fixpoint filter_names (ls : list str) : list str :=
+    match ls with
+    | [] => []
+    | l :: r => match req_cname l with Some n => n :: filter_names r | None => filter_names r end
+    end.
+  Definition names_req (b : str) : list str := filter_names (clean_lines (splitlines b)).
+End NamesReq.
